@@ -314,7 +314,8 @@ func (e *Evaluator) Eval(
 		return nil
 
 	//=begin
-	case t.IsEqualIdentifier() && nextT.IsTargetIdentifier("begin"):
+	// ('=begin' written together; 'x = begin ... end' is a begin expression)
+	case t.IsEqualIdentifier() && nextT.IsTargetIdentifier("begin") && !nextT.IsBeforeSpace:
 		return skipMultilineComment(p)
 
 	// test()
